@@ -412,4 +412,29 @@ def r4_policy(P, rep, ctx):
             okf = okf and MM.match(f"cls.cast({fn_.args.args[0].arg}).merge_with({fn_.args.args[1].arg}, ___)", fn_.body) is not None
         else:
             okf = False
+    if not folds:
+        # the same left fold written as a loop: acc = first; for x in rest: acc = cls.cast(acc).merge_with(x, ..)
+        for n in mg.g.nodes:
+            if n.kind != "for" or not isinstance(n.stmt.target, ast.Name):
+                continue
+            lv = n.stmt.target.id
+            steps = [(i, v, b) for i, v, b in mg.stores("__a") if isinstance(mg.g.nodes[i].stmt, ast.Assign) and isinstance(mg.g.nodes[i].stmt.targets[0], ast.Name)
+                     and MM.match(f"cls.cast({mg.g.nodes[i].stmt.targets[0].id}).merge_with({lv}, ___)", v) is not None]
+            if not steps:
+                continue
+            acc = mg.g.nodes[steps[0][0]].stmt.targets[0].id
+            inits = [norm(mg.g.nodes[i].stmt.value) for i, v, b in mg.stores(acc) if i not in [s_[0] for s_ in steps]]
+            it_raw, it_x = norm(n.stmt.iter), mg.x(n.stmt.iter)
+            if it_x == f"iter({op})" and isinstance(n.stmt.iter, ast.Name):
+                good_init = inits == [f"next({it_raw})"]
+            elif it_x == f"{op}[1:]":
+                good_init = inits == [f"{op}[0]"]
+            elif it_x == op:
+                good_init = inits == ["cls()"]
+            else:
+                good_init = False
+            every = mg.hit_before(n.idx, nodes=[s_[0] for s_ in steps], src_edge=(n.idx, "iter"))
+            rets_ = [norm(v) for _, v in mg.returns() if v is not None and norm(v) != "cls()"]
+            okf = bool(empties) and good_init and every and bool(rets_) and all(t in (f"cls.cast({acc})", acc) for t in rets_)
+            break
     rep.check(okf, "C14.R4", mgfi.qual, "merge folds merge_with left to right, the empty partial for no operands", mgfi.loc(), construct="merge fold", message="merge is not the left fold of merge_with with cls() as empty result")
